@@ -152,3 +152,18 @@ MANIFEST_TEXT['C05'] = dict(
                'every DEFVAL notation through type chains of length 0..3 in every declaration order of the bounded module.',
     level_note='Trusted: CrossHair/z3, PLY. JSON side only; the pysnmp template macros are outside.')
 _finalise()
+
+PROPS['C06'] = dict(
+    modules=['harness.c06_refs'], level='other', files=TOK_FILES,
+    explanation=XH + '. C06: tables (columns, INDEX lists with IMPLIED / imported / hyphenated entries, AUGMENTS, SEQUENCE type present or '
+                'not, declaration order), OBJECTS/NOTIFICATIONS/VARIABLES lists and compliance statements with symbolic shape go through the '
+                'real parser, symbol table and JSON code generator.',
+    functions=TOK_FUNCS, stubs=TOK_STUBS,
+    bounds='<=3 columns, <=3 index entries, lists of <=3, <=2 MODULE parts, <=3 GROUP/OBJECT clauses, 2 modules',
+    outside=['setIndexNames/registerAugmentions/setObjects calls in the pysnmp text (template)', 'longer lists'],
+    assumptions=[])
+MANIFEST_TEXT['C06'] = dict(
+    technique='CrossHair symbolic execution of parser actions + symtable + JSON codegen on table/list/compliance token sentences',
+    level_text='Solver-exhaustive within bounds over table shapes, index arrangements, list arrangements and clause interleavings.',
+    level_note='Trusted: CrossHair/z3, PLY. JSON side only.')
+_finalise()
